@@ -4,7 +4,7 @@
    stored mode), ETDRK/Phi.v (the tableaux, tied to the code by C02).  F is any field of characteristic 0. *)
 From Coq Require Import ZArith QArith List Bool Lia.
 From EXV Require Import Base.Scalar Base.FieldLemmas Spectral.Symbols Gen.GenericUtils Tie.GenericUtilsTie
-  Steppers.Generic ETDRK.Phi ETDRK.Scaling.
+  Steppers.Generic ETDRK.Phi ETDRK.Scaling Nonlin.Conv Nonlin.Terms Nonlin.Scales.
 Import ListNotations.
 Local Open Scope fld_scope.
 Ltac splits := repeat match goal with |- _ /\ _ => split end.
@@ -93,6 +93,16 @@ Print Assumptions C13_only_groups_matter.
 
 (* every concrete stepper has the linear symbol of the generic stepper with the equivalent coefficient list (D = 1,2,3);
    a zeroth-order coefficient c_0 corresponds to a_0 = c_0 / D because the generic symbol counts a_0 once per axis *)
+(* the built-in nonlinear terms on a domain of extent L (derivative factor s = 2 pi / L) are the unit-factor terms with the scale b s for
+   the terms with one derivative and b s^2 for the gradient norm; together with C13_only_groups_matter (h N enters the tableaux) this is the
+   normalisation beta_1 = b dt / L, beta_2 = b dt / L^2 of the normalized steppers - every D, N, band, state, stored mode *)
+Theorem C13_nonlinear_scales : forall (F : FieldT) (D : nat) (N Kc : Z) (ii s b : F) (zf : bool) (u : field F) (k : idx),
+  conv_sc_cons F (prod2 F D N Kc) ii s D b u k = conv_sc_cons F (prod2 F D N Kc) ii 1 D (b * s) u k
+  /\ conv_sc_noncons F (prod2 F D N Kc) ii s D b u k = conv_sc_noncons F (prod2 F D N Kc) ii 1 D (b * s) u k
+  /\ gradient_norm F (prod2 F D N Kc) ii s D b zf u k = gradient_norm F (prod2 F D N Kc) ii 1 D (b * s * s) zf u k.
+Proof. intros. apply builtin_terms_scale. Qed.
+Print Assumptions C13_nonlinear_scales.
+
 Theorem C13_specific_equals_generic : forall (F : FieldT) (d : list F), (1 <= length d <= 3)%nat ->
   forall c nu xi mu s2 s4 drag r c1 a0d a0r a0c,
   sym_advection F (const_vec F c d) d = poly_sym F [0; - c] d
